@@ -24,7 +24,7 @@ valid = e3gen.well_posed
 
 def phases(tier):
     if tier == 'quick':
-        return [Search('models', lambda: e3gen.specs(MIX), 400, shards=4)]
+        return [Search('models', lambda: e3gen.specs(MIX), 800, shards=4)]
     return [Search('models', lambda: e3gen.specs(MIX), 1500, shards=16)]
 
 
